@@ -142,3 +142,39 @@ pub fn cderead(args: &[String]) {
     }
     println!("{}", serde_json::Value::Array(out));
 }
+
+/// `vh simpleread --list L`: runs io::simple::read and io::check_data_consistency on every entry of the list file and prints what
+/// they returned (C15: correspondence of the reader model SimpleRead)
+pub fn simpleread(args: &[String]) {
+    std::panic::set_hook(Box::new(|_| {}));
+    let mut list = None;
+    for i in 0..args.len() {
+        if args[i] == "--list" && i + 1 < args.len() {
+            list = Some(args[i + 1].clone());
+        }
+    }
+    let v: serde_json::Value = serde_json::from_str(&std::fs::read_to_string(list.unwrap()).unwrap()).unwrap();
+    let mut out = Vec::new();
+    for e in v.as_array().unwrap() {
+        let path = e["file"].as_str().unwrap().to_string();
+        let r = std::panic::catch_unwind(move || {
+            let f = std::fs::File::open(&path).unwrap();
+            match cdecao::io::simple::read(f) {
+                Err(m) => json!({"err": m}),
+                Ok((ps, cs)) => {
+                    let consistent = cdecao::io::check_data_consistency(&ps, &cs).is_ok();
+                    json!({
+                        "participants": ps.iter().map(|p| { let (_i, _d, n, ch) = cdecao::verif::participant_fields(p); json!({"name": n, "choices": ch}) }).collect::<Vec<_>>(),
+                        "courses": cs.iter().map(|c| { let (_i, _d, n, mn, mx, ins, fb, ob, fx, hid) = cdecao::verif::course_fields(c);
+                            json!({"name": n, "min": mn, "max": mx, "instr": ins, "fixed": fx, "hidden": hid, "fbits": fb, "obits": ob}) }).collect::<Vec<_>>(),
+                        "consistent": consistent})
+                }
+            }
+        });
+        out.push(match r {
+            Ok(v) => v,
+            Err(_) => json!({"panic": true}),
+        });
+    }
+    println!("{}", serde_json::Value::Array(out));
+}
